@@ -96,6 +96,16 @@ func VerifC31TicketKeysRoundTrip(in []TicketKey) []TicketKey {
 	return ticketKeys(TicketKeys(in).ToPrivate()).ToPublic()
 }
 
+// One-way slice conversions; the private slice travels as `any`.
+func VerifC31KeySharesToPrivate(in []KeyShare) any        { return KeyShares(in).ToPrivate() }
+func VerifC31KeySharesToPublic(in any) []KeyShare         { return keyShares(in.([]keyShare)).ToPublic() }
+func VerifC31PskIdentitiesToPrivate(in []PskIdentity) any { return PskIdentities(in).ToPrivate() }
+func VerifC31PskIdentitiesToPublic(in any) []PskIdentity {
+	return pskIdentities(in.([]pskIdentity)).ToPublic()
+}
+func VerifC31TicketKeysToPrivate(in []TicketKey) any { return TicketKeys(in).ToPrivate() }
+func VerifC31TicketKeysToPublic(in any) []TicketKey  { return ticketKeys(in.([]ticketKey)).ToPublic() }
+
 // VerifC31Pool: sample values for field types that cannot be invented by reflection
 // (funcs, interfaces, pointers to foreign key types). The harness picks, per field, a pool
 // value assignable to the field's type.
